@@ -30,5 +30,5 @@ Emit == AtEnd =>
      err    |-> IF cfg'.err # "" THEN cfg'.err
                 ELSE IF Accepting(cfg') THEN "" ELSE "eof-" \o cfg'.lex \o "-" \o cfg'.ps,
      at     |-> IF cfg'.err = "badlabel" THEN badpos' ELSE pos',
-     nodes  |-> cfg'.nodes, bare |-> cfg'.bare, edges |-> cfg'.edges, bars |-> cfg'.bars]))
+     nodes  |-> cfg'.nodes, bare |-> cfg'.bare, edges |-> cfg'.edges, bars |-> cfg'.bars, nids |-> Cardinality(cfg'.ids)]))
 =============================================================================
